@@ -245,6 +245,9 @@ def analyse(impl_out, model_out, tol=TOL):
 
     for key in oa:
         if key in B:
+            if B[key] == ["undefined"]:      # the model declares the quantity undefined for this input
+                res["n_undefined"] = res.get("n_undefined", 0) + 1
+                continue
             ok, dev, why = cmpmod.cmp_tokens(A[key], B[key], tol)
             res["n_corr"] += 1
             if ok:
